@@ -9,7 +9,8 @@ that detection relies on) and of `src/detect.rs` + the four `input_matches`
 functions.  Helper lemmas are in `Lemmas/Input.lean`.
 
 Obligations (listed in props/C09.py): `capture_transparent`,
-`capture_transparent_from`, `no_fault_no_error`, `eof_flips_to_slice`,
+`capture_transparent_from`, `capture_invariant`, `no_fault_no_error`,
+`detection_then_takeover`, `eof_flips_to_slice`,
 `eof_only_at_end`, `capture_error_keeps_bytes`, `fault_met_again`,
 `capture_released`, `no_panic_input`, `detect_is_first_match`, `detect_none`,
 `detect_io_only_from_source`, `msgpack_marker_table`, `toml_trial_capped`.
@@ -476,6 +477,89 @@ theorem seen_no_panic (orig : List Nat) (f : Bool) (obs : List Obs) :
       · simp
       · simp only [Seen] at hs; exact ih _ hs o ho s
 
+/-- What `Seen` says about a single observation, wherever it occurs. -/
+def ObsOk (orig : List Nat) (faulty : Bool) : Obs → Prop
+  | .refSlice bs | .inputSlice bs | .inputReader bs | .cow bs => bs = orig
+  | .prefix bs => bs <+: orig
+  | .read bs => ∃ before, before ++ bs <+: orig
+  | .err _ e => e = .source ∧ faulty = true
+  | .panic _ => False
+  | _ => True
+
+theorem seen_mem (orig : List Nat) (f : Bool) (obs : List Obs) :
+    ∀ acc, Seen orig f acc obs → ∀ o ∈ obs, ObsOk orig f o := by
+  induction obs with
+  | nil => intro _ _ o ho; simp at ho
+  | cons x xs ih =>
+    intro acc hs o ho
+    simp only [List.mem_cons] at ho
+    cases x with
+    | panic s => simp [Seen] at hs
+    | read bs =>
+      cases acc with
+      | none =>
+        simp only [Seen] at hs
+        rcases ho with rfl | ho
+        · exact ⟨[], by simp [hs.1]⟩
+        · exact ih _ hs.2 o ho
+      | some ac =>
+        simp only [Seen] at hs
+        rcases ho with rfl | ho
+        · exact ⟨ac, hs.1⟩
+        · exact ih _ hs.2 o ho
+    | err a' e' =>
+      simp only [Seen] at hs
+      rcases ho with rfl | ho
+      · exact ⟨hs.1, hs.2.1⟩
+      · exact ih _ hs.2.2 o ho
+    | refSlice bs =>
+      simp only [Seen] at hs
+      rcases ho with rfl | ho
+      · exact hs.1
+      · exact ih _ hs.2 o ho
+    | refReader =>
+      simp only [Seen] at hs
+      rcases ho with rfl | ho
+      · trivial
+      · exact ih _ hs o ho
+    | «prefix» bs =>
+      simp only [Seen] at hs
+      rcases ho with rfl | ho
+      · exact hs.1
+      · exact ih _ hs.2 o ho
+    | inputSlice bs =>
+      simp only [Seen] at hs
+      rcases ho with rfl | ho
+      · exact hs.1
+      · exact ih _ hs.2 o ho
+    | inputReader bs =>
+      simp only [Seen] at hs
+      rcases ho with rfl | ho
+      · exact hs.1
+      · exact ih _ hs.2 o ho
+    | cow bs =>
+      simp only [Seen] at hs
+      rcases ho with rfl | ho
+      · exact hs.1
+      · exact ih _ hs.2 o ho
+    | skipped =>
+      simp only [Seen] at hs
+      rcases ho with rfl | ho
+      · trivial
+      · exact ih _ hs o ho
+
+/-- **After detection the translator sees the complete, unaltered byte stream.**
+Whatever the four trials read through their (rewound) borrows — any reads and
+prefix requests `t₁ … t₄` — taking ownership afterwards yields exactly the
+original bytes, as a slice, as a drained reader or as a `Cow`; and every slice
+view a trial was given was the complete input.  (Corollary of
+`capture_transparent` for the program `B t₁ B t₂ B t₃ B t₄ takeover`.) -/
+theorem detection_then_takeover (s : Source) (t1 t2 t3 t4 : List Op) (takeover : Op) :
+    ∀ o ∈ handleProgram s
+        (.borrow :: t1 ++ .borrow :: t2 ++ .borrow :: t3 ++ .borrow :: t4 ++ [takeover]),
+      ObsOk s.data s.failAt.isSome o :=
+  seen_mem s.data _ _ none (capture_transparent s _)
+
 /-- When the source does not fail, no step of any program fails: borrowing,
 reading, prefix requests and both ways of taking ownership all succeed (and, by
 `capture_transparent`, `Input.ofHandle` / `Cow.ofHandle` denote exactly the
@@ -880,6 +964,7 @@ example : msgpackMatches (.ok [0x92, 1]) (.readErr true) = .noMatch ∧
 #print axioms capture_transparent_from
 #print axioms capture_invariant
 #print axioms no_fault_no_error
+#print axioms detection_then_takeover
 #print axioms eof_flips_to_slice
 #print axioms eof_only_at_end
 #print axioms capture_error_keeps_bytes
